@@ -16,7 +16,7 @@ echo "S $NAME $$ $PPID $WHO" >&9
 if [ -n "$ERRLINES" ]; then i=0; while [ $i -lt $ERRLINES ]; do echo "$NAME#$i" >&2; i=$((i+1)); done; fi
 if [ -n "$DYN" ]; then redo-ifchange "$1.sel"; DEPS=$(cat "$1.sel"); fi
 if [ -n "$FLAG" ]; then redo-ifchange "$1.flag"; fi
-ADEPS=""; for d in $DEPS; do ADEPS="$ADEPS $RV_TOP/$d"; done
+ADEPS=""; for d in $DEPS; do case "$ALIAS:$d" in 1:sub/*) ADEPS="$ADEPS $RV_TOP/lnk/${d#sub/}";; *) ADEPS="$ADEPS $RV_TOP/$d";; esac; done
 if [ -n "$DEPS" ]; then
   if [ -n "$SPLIT" ]; then
     rc=0; for d in $ADEPS; do set +e; redo-ifchange $d; r=$?; set -e; echo "RC $NAME $$ $r $d" >&9; [ $r = 0 ] || { rc=$r; break; }; done
@@ -33,6 +33,7 @@ echo "W+ $NAME $$" >&9
 [ -z "$SLEEP" ] || sleep $SLEEP
 echo "W- $NAME $$" >&9
 if [ -n "$FLAG" ] && [ "$(cat "$1.flag")" = 1 ]; then echo "E $NAME $$ 7" >&9; exit 7; fi
+if [ -e "$1.hfail" ]; then echo "E $NAME $$ 8" >&9; exit 8; fi
 if [ -z "$PHONY" ]; then
   {
     echo "T $NAME $WHO"
@@ -82,7 +83,7 @@ class Program:
 
     def shape(self):
         """Canonical description of the graph that ignores names' incidental numbering as little as needed."""
-        return [(n, sorted(k for k in ('stamp', 'always', 'head', 'phony', 'dyn', 'split') if t.get(k)) +
+        return [(n, sorted(k for k in ('stamp', 'always', 'head', 'phony', 'dyn', 'split', 'alias') if t.get(k)) +
                  (['flag'] if t.get('flag') is not None else []) + (['watch'] if t.get('watch') else []) +
                  (['opt'] if t.get('opt') else []), sorted(t['deps'])) for n, t in sorted(self.targets.items())]
 
@@ -103,6 +104,11 @@ class Program:
 
     def fails(self, name):
         return self.targets[name].get('flag') == 1
+
+    def hfails(self, name):
+        """Fails whenever it is executed, for a reason that is no declared dependency (a file the script looks at without telling
+        redo): it does not make the target dirty, it only makes a rebuild fail."""
+        return bool(self.targets[name].get('hfail'))
 
     def src_bytes(self, name):
         v = self.sources[name]
@@ -194,7 +200,7 @@ class Program:
         t = self.targets[name]
         lines = ["NAME='%s'" % name, "DEPS='%s'" % ' '.join(t['deps'])]
         for k, var in (('dyn', 'DYN'), ('stamp', 'STAMP'), ('always', 'ALWAYS'), ('head', 'HEAD'),
-                       ('phony', 'PHONY'), ('split', 'SPLIT')):
+                       ('phony', 'PHONY'), ('split', 'SPLIT'), ('alias', 'ALIAS')):
             lines.append("%s=%s" % (var, '1' if t.get(k) else ''))
         lines.append("FLAG=%s" % ('1' if t.get('flag') is not None else ''))
         lines.append("WATCH='%s'" % (t.get('watch') or ''))
@@ -238,6 +244,9 @@ class Program:
             write_file(p, b, clock)
 
     def write_all(self, top, clock):
+        if any(t.get('alias') for t in self.targets.values()) and not os.path.lexists(os.path.join(top, 'lnk')):
+            os.makedirs(os.path.join(top, 'sub'), exist_ok=True)
+            os.symlink('sub', os.path.join(top, 'lnk'))
         for n in self.sources:
             self.write_source(top, n, clock)
         for n in self.watch:
